@@ -58,15 +58,33 @@ def finish(prop, tier, seed, obligations, undecided, notes, vr, kr, wall, write_
     units = verus_backend.load_units()
     ok_kani = {o.name.split("::")[-1] for o in obligations
                if o.backend.startswith("kani") and o.status == "discharged" and o.kind == "complete"}
+    bad_kani = {o.name.split("::")[-1] for o in obligations
+                if o.backend.startswith("kani") and o.status != "discharged"}
     for ob in obligations:
         if ob.status == "failed" and ob.backend.startswith("verus"):
             unit = ob.name.split("/")[1]
-            fn = ob.name.split("/")[-1].split("::")[-1]
-            h = units.get(unit, {}).get("paired_complete", {}).get(fn)
-            if h and h in ok_kani:
-                ob.status = "undecided"
-                undecided.append(f"{ob.name}: Verus proof not found, but the complete Kani lemma {h} of the "
-                                 f"same contract holds: lost proof, not a violation ({ob.detail[0][:120]})")
+            item_fn = ob.name.split("/", 2)[2]
+            fn = item_fn.split("::")[-1]
+            pc = units.get(unit, {}).get("paired_complete", {})
+            hs = pc.get(item_fn) or pc.get(fn)
+            if not hs:
+                continue
+            hs = [hs] if isinstance(hs, str) else list(hs)
+            if any(h in bad_kani for h in hs):
+                continue
+            missing = [h for h in hs if h not in ok_kani]
+            if missing:
+                # lemmas of the same contract that are not part of this property's
+                # selection: run them now
+                try:
+                    extra = kani_backend.run_named(missing)
+                except Exception:
+                    extra = {}
+                if not all(extra.get(h) for h in missing):
+                    continue
+            ob.status = "undecided"
+            undecided.append(f"{ob.name}: Verus proof not found, but the complete Kani lemma(s) {', '.join(hs)} of the "
+                             f"same contract hold on this tree: lost proof, not a violation ({ob.detail[0][:120]})")
     # Kani failures first: they come with replayable counterexamples
     for ob in sorted(obligations, key=lambda o: 0 if o.backend.startswith("kani") else 1):
         if ob.status != "failed":
